@@ -6,7 +6,8 @@ for d in seeded/*/; do
   id=$(basename $d)
   if ! git -C /repo apply --check /verif/$d/patch.diff 2>/dev/null; then echo "$id: patch does not apply to the current tree (base moved)"; python3 tools/meta.py $id "matrix_on_repo=patch does not apply to the current tree (the defect it planted was repaired since)"; continue; fi
   git -C /repo apply /verif/$d/patch.diff
-  out=$(SA_EVIDENCE_DIR=/tmp/ev_matrix /venv/bin/python -m sa all 2>&1 | grep -E "^(VIOLATION|ANALYSIS-ERROR)" | sed -E 's/VIOLATION property=(C[0-9]+).*/\1:1/; s/ANALYSIS-ERROR property=(C[0-9]+).*/\1:2/' | sort -u | tr '\n' ' ')
+  # the 18 checks side by side (each reads /repo's working tree; evidence goes to a scratch directory)
+  out=$(printf "%s\n" C02 C03 C04 C05 C06 C07 C08 C09 C10 C11 C12 C13 C14 C15 C16 C17 C18 C19 | xargs -P 16 -I{} sh -c 'SA_EVIDENCE_DIR=/tmp/ev_matrix/{} /venv/bin/python -m sa check {} 2>&1' | grep -E "^(VIOLATION|ANALYSIS-ERROR)" | sed -E 's/VIOLATION property=(C[0-9]+).*/\1:1/; s/ANALYSIS-ERROR property=(C[0-9]+).*/\1:2/' | sort -u | tr '\n' ' ')
   git -C /repo checkout -- .
   echo "$id -> $out"
   python3 tools/meta.py $id "matrix_on_repo=${out:-none}"
